@@ -176,14 +176,21 @@ def run(R, tier):
         oq = o["quantities"][q].get("db", {})
         seen = {}
         delegates = False
+        not_whole = []
         for lit, r, ok, order in suffix_paths(eng, b):
             v = r.retval
             var = v.fields[0].name if isinstance(v, EnumV) and v.name == "Ok" and isinstance(v.fields.get(0), EnumV) else None
             if lit is None:
                 # not a dB suffix: delegated to the linear conversion of the same token
                 conv = [e for e in r.trace if e.kind == "call" and e.name.endswith("TryFrom::try_from")]
-                if var == "Linear" and len(conv) == 1 and "DecimalNumericSuffixProgramData" in repr(conv[0].args[0]):
+                a0 = conv[0].args[0] if len(conv) == 1 else None
+                # the linear conversion must see the element as it came: number AND suffix (a token rebuilt from the
+                # number alone would be scaled as the base unit and would accept undefined suffixes)
+                whole = isinstance(a0, tuple) and len(a0) > 3 and a0[0] == "enum" and a0[2] == "DecimalNumericSuffixProgramData" and "tok-DecimalNumericSuffixProgramData-0" in repr(a0) and "tok-DecimalNumericSuffixProgramData-1" in repr(a0)
+                if var == "Linear" and whole:
                     delegates = True
+                elif var == "Linear":
+                    not_whole.append(repr(a0)[:120])
                 continue
             unit, newc = unit_of(r)
             if unit is None or var != "Logarithmic":
@@ -194,7 +201,7 @@ def run(R, tier):
         for suf, (unit, num_ok, one) in sorted(seen.items()):
             n_db += 1
             R.check(oq.get(suf) == unit and num_ok and one, "R18.5", "%s:%s" % (q, suf), "-> Logarithmic(number unchanged, reference 1 %s)" % unit, "decibel suffix %s of %s: reference unit %s (expected %s), number passed through unchanged: %s" % (suf, q, unit, oq.get(suf), num_ok), where=b.span)
-        R.check(set(seen) == set(oq) and delegates, "R18.5", "%s:db-table" % q, "dB suffixes %s; anything else goes to the linear conversion" % sorted(seen), "decibel table of %s is %s, expected %s (other suffixes must be delegated to the linear conversion)" % (q, sorted(seen), sorted(oq)), where=b.span)
+        R.check(set(seen) == set(oq) and delegates and not not_whole, "R18.5", "%s:db-table" % q, "dB suffixes %s; anything else goes to the linear conversion" % sorted(seen), "decibel table of %s is %s, expected %s (other suffixes must be delegated to the linear conversion)" % (q, sorted(seen), sorted(oq)), where=b.span)
     R.floor("R18.5", "decibel entries", n_db, 10)
 
     # ---- R18.4 amplitude ---------------------------------------------------------------------------------------
